@@ -1308,7 +1308,11 @@ class Fraction(Expression):
 
     def to_y0(self, parens: bool = True) -> str:
         """Output this fraction as y0 internal DSL code."""
-        s = f"({self.numerator.to_y0()} / {self.denominator.to_y0()})"
+        denominator = self.denominator.to_y0()
+        if isinstance(self.denominator, Product):
+            # a / b * c reads as (a / b) * c, so a product in the denominator needs its own parentheses
+            denominator = f"({denominator})"
+        s = f"({self.numerator.to_y0()} / {denominator})"
         return f"({s})" if parens else s
 
     def __mul__(self, expression: Expression) -> Expression:
